@@ -242,14 +242,28 @@ def bus_isolation(chk, rng, thorough):
     inputs += [m for m in muts if m[0].startswith('lie@4=') or m[0].startswith('lie@12=')]      # body / header-array length lies
     inputs += [('header only, body length 2^27+1', base[:4] + (2 ** 27 + 1).to_bytes(4, 'little') + base[8:16]),
                ('header only, header length 2^27+1', base[:12] + (2 ** 27 + 1).to_bytes(4, 'little'))]
+    # frames whose lengths are honest and whose BODY is not what its signature says: whoever takes them apart first
+    # (the bus, for its sender) pays for them - they are not passed on for the addressee to choke on
+    hfl = [('path', '/h'), ('interface', 'org.ex.H'), ('member', 'Hostile'), ('destination', vname)]
+    for sg, body in (('s', b'\x03\0\0\0\xff\xfe\xfd\0'), ('s', b'\x07\0\0\0abc\0'), ('s', b'\x03\0\0\0abcd'),
+                     ('as', b'\x40\0\0\0\x01\0\0\0a\0'), ('v', b'\x01s\0\0\x09\0\0\0ab\0'), ('v', b'\x03(((\0'),
+                     ('ai', b'\x05\0\0\0\x01\0\0\0\x02'), ('o', b'\x02\0\0\0//\0'), ('a{ss}', b'\x08\0\0\0\0\0\0\0\x01\0\0\0')):
+        for le in (True, False):
+            if not le:
+                body = body[:4][::-1] + body[4:]
+            inputs.append(('honest frame, body %r under %s' % (body[:12], sg), refwire.msg(1, 89, hfl, sg, None, le=le, body_raw=body)))
+            inputs.append(('honest frame (signal), body %r under %s' % (body[:12], sg), refwire.msg(4, 89, hfl, sg, None, le=le, body_raw=body)))
     inputs += rng.sample(muts, min(len(muts), 400 if thorough else 80))
     assert probe(0), 'probe does not arrive on the undisturbed bus'
     recs, names = [], []
     h = None
     for i, (name, raw) in enumerate(inputs, 1):
-        if h is None or net.clients[h][3].disconnecting:
-            h = net.add_client()
-            net.run()
+        if h is not None:
+            # (a connection left waiting for the rest of an announced length would swallow the next input)
+            net.clients[h][3].loseConnection()
+            net.clients[h][2].connectionLost(fakes.conn_lost())
+        h = net.add_client()
+        net.run()
         bp = net.clients[h][2]
         # everything runs under the call counter: a decoder that loops must end as a verdict, not hang the check
         out, calls, r = counted(lambda: bp.dataReceived(raw), 40 * bound(len(raw), 64))
@@ -286,7 +300,8 @@ def array_lies(rng):
     measured for allocation and CPU in the child (a decoder that sizes anything by an announced length shows here)"""
     out = []
     bodies = [('ai', [[1, 2, 3, 4]]), ('ad', [[1.5, 2.5]]), ('aay', [[[1], [2, 3]]]), ('at', [[7]]), ('as', [['a', 'b']]),
-              ('a{sv}', [[('k', refwire.Variant('u', 1))]]), ('ayai', [[1, 2, 3], [5]])]
+              ('a{sv}', [[('k', refwire.Variant('u', 1))]]), ('ayai', [[1, 2, 3], [5]]),
+              ('ab', [[True, False, True]]), ('a(bb)', [[(True, True)]]), ('an', [[1, -2]]), ('ax', [[5]])]
     import struct
     for sg, body in bodies:
         for le in (True, False):
